@@ -844,3 +844,172 @@ Proof.
   - rewrite <- Hstep1. apply step_Rooted; [exact Hswf|exact I|exact Hr].
   - rewrite <- Hstep2. apply step_Rooted; [apply init_SWF|exact I|apply init_Rooted].
 Qed.
+
+(* ---------- hierarchy_unique needs Rooted ---------- *)
+(* two source variables x0, x1 (f_i = x_i).  The BFS hierarchy has the root ** and the
+   four fixed points.  Adding the node 1* (a percolated trap space that does not fix
+   the source x1, hence not below any child of the root), expanded canonically with
+   edges to 10 and 11, keeps SWF, TrapNodes, AllExpanded, NoSkips, Faithful and the
+   root space: Hierarchy holds, yet the node sets differ.  The extra node has no
+   incoming edge: Rooted fails, and no operation sequence from init produces it. *)
+Definition cxh_net : net := [fun s => nth 0 s false; fun s => nth 1 s false].
+Definition cxh_cfg : config := {| max_motifs := 100 |}.
+Definition cxh_node (X : space) (dp : nat) (par : option nat) : node :=
+  {| n_space := X; n_depth := dp; n_exp := true; n_skip := false; n_parent := par;
+     n_cands := None; n_seeds := None; n_sets := None |}.
+Definition cxh_bfs : sd := fst (expand_bfs 10 cxh_net cxh_cfg (init cxh_net) None None None).
+Definition cxh_extra : sd :=
+  {| sd_nodes := [cxh_node [None; None] 0 None;
+                  cxh_node [Some false; Some false] 1 (Some 0);
+                  cxh_node [Some true; Some false] 1 (Some 0);
+                  cxh_node [Some false; Some true] 1 (Some 0);
+                  cxh_node [Some true; Some true] 1 (Some 0);
+                  cxh_node [Some true; None] 0 None];
+     sd_edges := [{| e_src := 0; e_dst := 1; e_motifs := [[Some false; Some false]] |};
+                  {| e_src := 0; e_dst := 2; e_motifs := [[Some true; Some false]] |};
+                  {| e_src := 0; e_dst := 3; e_motifs := [[Some false; Some true]] |};
+                  {| e_src := 0; e_dst := 4; e_motifs := [[Some true; Some true]] |};
+                  {| e_src := 5; e_dst := 2; e_motifs := [[Some true; Some false]] |};
+                  {| e_src := 5; e_dst := 4; e_motifs := [[Some true; Some true]] |}] |}.
+
+Lemma cxh_extra_hierarchy : Hierarchy cxh_net cxh_extra.
+Proof.
+  split; [|split; [|split; [|split; [|split]]]].
+  - constructor.
+    + unfold size. simpl. lia.
+    + intros x Hin. simpl in Hin. repeat (destruct Hin as [Hx|Hin]; [subst x; reflexivity|]). contradiction.
+    + unfold spaces. simpl. repeat (constructor; [simpl; intuition discriminate|]). constructor.
+    + intros e Hin. unfold size. simpl in *.
+      repeat (destruct Hin as [He|Hin]; [subst e; simpl; repeat split; try lia; discriminate|]).
+      contradiction.
+    + simpl. repeat (constructor; [simpl; intuition discriminate|]). constructor.
+    + intros x Hin. simpl in Hin.
+      repeat (destruct Hin as [Hx|Hin]; [subst x; vm_compute; reflexivity|]). contradiction.
+    + intros e m Hin Hm. simpl in Hin.
+      repeat (destruct Hin as [He|Hin];
+              [subst e; simpl in Hm; destruct Hm as [Hm|[]]; subst m; split; vm_compute; reflexivity|]).
+      contradiction.
+  - intros x Hin. apply is_trap_b_spec. simpl in Hin.
+    repeat (destruct Hin as [Hx|Hin]; [subst x; vm_compute; reflexivity|]). contradiction.
+  - intros i Hi. unfold size in Hi. simpl in Hi.
+    do 6 (destruct i as [|i]; [reflexivity|]). lia.
+  - intros i Hi. unfold size in Hi. simpl in Hi.
+    do 6 (destruct i as [|i]; [reflexivity|]). lia.
+  - intros i Hi _ _. unfold size in Hi. simpl in Hi. unfold canonical.
+    destruct i as [|i].
+    { eapply Permutation_trans; [|apply sort_by_key_perm]. vm_compute. apply Permutation_refl. }
+    do 5 (destruct i as [|i]; [vm_compute; apply Permutation_refl|]). lia.
+  - vm_compute. reflexivity.
+Qed.
+
+Theorem hierarchy_unique_counterexample :
+  Hierarchy cxh_net cxh_extra /\ Hierarchy cxh_net cxh_bfs /\ Rooted cxh_bfs /\
+  ~ same_hierarchy cxh_extra cxh_bfs.
+Proof.
+  split; [exact cxh_extra_hierarchy|]. split; [|split].
+  - apply (bfs_hierarchy 10 cxh_net cxh_cfg); [unfold cxh_cfg; simpl; lia|].
+    vm_compute. reflexivity.
+  - change cxh_bfs with (fst (step 10 cxh_net cxh_cfg (init cxh_net) (OBfs None None None))).
+    apply step_Rooted; [apply init_SWF|exact I|apply init_Rooted].
+  - intros [Hsp _].
+    assert (Hin : In [Some true; None] (spaces cxh_extra)) by (vm_compute; tauto).
+    apply (proj1 (Hsp _)) in Hin. vm_compute in Hin. intuition discriminate.
+Qed.
+
+(* ================================================================== *)
+(* PART C.  comparing two diagrams through their node spaces            *)
+(* ================================================================== *)
+
+Definition is_subgraph_b (a b : sd) : bool :=
+  (match find_node b (n_space (get a 0)) with Some _ => true | None => false end) &&
+  forallb (fun i =>
+     if n_exp (get a i) then
+       match find_node b (n_space (get a i)) with
+       | None => false
+       | Some j =>
+           forallb (fun s => match find_node b (n_space (get a s)) with
+                             | Some t => n_exp (get b j) && existsb (Nat.eqb t) (successors b j)
+                             | None => false end) (successors a i)
+       end
+     else true) (seq 0 (size a)).
+
+Lemma find_node_of_In : forall N b X, SWF N b -> length X = nvars N -> In X (spaces b) ->
+  exists j, find_node b X = Some j /\ j < size b /\ n_space (get b j) = X.
+Proof.
+  intros N b X Hb HX Hin. apply In_spaces_iff in Hin. destruct Hin as (j & Hj & Hsp).
+  exists j. split; [|split; assumption]. apply (find_node_exact N b X j Hb HX). split; assumption.
+Qed.
+
+Theorem is_subgraph_b_spec : forall N a b, SWF N a -> SWF N b -> NoStubEdges a -> NoStubEdges b -> Rooted a ->
+  (is_subgraph_b a b = true <->
+   (forall X, In X (spaces a) -> In X (spaces b)) /\
+   (forall e, In e (sd_edges a) -> exists e', In e' (sd_edges b) /\
+        n_space (get b (e_src e')) = n_space (get a (e_src e)) /\ n_space (get b (e_dst e')) = n_space (get a (e_dst e)))).
+Proof.
+  intros N a b Ha Hb Hnsa Hnsb Hra.
+  assert (Hlen : forall i, i < size a -> length (n_space (get a i)) = nvars N).
+  { intros i Hi. apply (swf_len N a Ha). apply get_In. exact Hi. }
+  unfold is_subgraph_b. rewrite andb_true_iff, forallb_forall. split.
+  - intros [Hroot Hall].
+    assert (Hedge : forall e, In e (sd_edges a) ->
+              exists j t, find_node b (n_space (get a (e_src e))) = Some j /\
+                          find_node b (n_space (get a (e_dst e))) = Some t /\
+                          In t (successors b j)).
+    { intros e Hin. destruct (swf_edges N a Ha e Hin) as (Hs & Hd & _).
+      assert (Hseq : In (e_src e) (seq 0 (size a))) by (apply in_seq; lia).
+      pose proof (Hall (e_src e) Hseq) as Hi. rewrite (Hnsa e Hin) in Hi.
+      destruct (find_node b (n_space (get a (e_src e)))) as [j|]; [|discriminate Hi].
+      rewrite forallb_forall in Hi.
+      assert (Hsucc : In (e_dst e) (successors a (e_src e))).
+      { apply In_successors. exists e. repeat split; auto. }
+      pose proof (Hi (e_dst e) Hsucc) as Ht.
+      destruct (find_node b (n_space (get a (e_dst e)))) as [t|]; [|discriminate Ht].
+      apply andb_true_iff in Ht. destruct Ht as [_ Hex].
+      apply existsb_exists in Hex. destruct Hex as (t' & Hin' & Heq).
+      apply Nat.eqb_eq in Heq. subst t'. exists j, t. repeat split; auto. }
+    split.
+    + intros X HX. apply In_spaces_iff in HX. destruct HX as (i & Hi & Hsp). subst X.
+      destruct i as [|i].
+      * destruct (find_node b (n_space (get a 0))) as [j|] eqn:Ef; [|discriminate Hroot].
+        apply (find_node_exact N b _ j Hb (Hlen 0 Hi)) in Ef.
+        apply In_spaces_iff. exists j. exact Ef.
+      * destruct (Hra (S i)) as (e & Hin & Hd); [lia|exact Hi|].
+        destruct (Hedge e Hin) as (j & t & _ & Ht & _). rewrite Hd in Ht.
+        apply (find_node_exact N b _ t Hb (Hlen (S i) Hi)) in Ht.
+        apply In_spaces_iff. exists t. exact Ht.
+    + intros e Hin. destruct (Hedge e Hin) as (j & t & Hj & Ht & Hs).
+      destruct (swf_edges N a Ha e Hin) as (Hs' & Hd' & _).
+      apply (find_node_exact N b _ j Hb (Hlen _ Hs')) in Hj.
+      apply (find_node_exact N b _ t Hb (Hlen _ Hd')) in Ht.
+      apply In_successors in Hs. destruct Hs as (e' & Hin' & Hs1 & Hd1).
+      exists e'. split; [exact Hin'|]. rewrite Hs1, Hd1. split; [apply Hj|apply Ht].
+  - intros [Hsp Hed].
+    assert (H0 : 0 < size a) by apply (swf_size N a Ha).
+    split.
+    + destruct (find_node_of_In N b (n_space (get a 0)) Hb (Hlen 0 H0)) as (j & Hf & _).
+      { apply Hsp. apply In_spaces_iff. exists 0. split; [exact H0|reflexivity]. }
+      rewrite Hf. reflexivity.
+    + intros i Hi. apply in_seq in Hi. assert (Hi' : i < size a) by lia.
+      destruct (n_exp (get a i)) eqn:Ee; [|reflexivity].
+      destruct (find_node_of_In N b (n_space (get a i)) Hb (Hlen i Hi')) as (j & Hf & Hj & Hspj).
+      { apply Hsp. apply In_spaces_iff. exists i. split; [exact Hi'|reflexivity]. }
+      rewrite Hf. apply forallb_forall. intros s Hs.
+      apply In_successors in Hs. destruct Hs as (e & Hin & Hsrc & Hdst).
+      destruct (Hed e Hin) as (e' & Hin' & Hs' & Hd').
+      destruct (swf_edges N b Hb e' Hin') as (Hs'' & Hd'' & _).
+      destruct (swf_edges N a Ha e Hin) as (_ & Hda & _).
+      assert (Hj' : e_src e' = j).
+      { apply (spaces_inj N b _ _ Hb Hs'' Hj). congruence. }
+      assert (Hft : find_node b (n_space (get a s)) = Some (e_dst e')).
+      { rewrite <- Hdst. apply (find_node_exact N b _ _ Hb (Hlen _ Hda)). split; assumption. }
+      rewrite Hft. apply andb_true_iff. split.
+      * rewrite <- Hj'. apply Hnsb. exact Hin'.
+      * apply existsb_exists. exists (e_dst e'). split; [|apply Nat.eqb_refl].
+        apply In_successors. exists e'. repeat split; auto.
+Qed.
+
+Print Assumptions reclaim_transparent.
+Print Assumptions hierarchy_unique_weak.
+Print Assumptions hierarchy_unique_counterexample.
+Print Assumptions bfs_after_anything.
+Print Assumptions is_subgraph_b_spec.
